@@ -63,6 +63,87 @@ def callback(m, sid, layer, plans):
     return "\tvoid %s(%s& c) { deliver(M_%s, %s, %s, c); }\n" % (m, ctl, m, sid, layer)
 
 
+
+def alt_section(n):
+    """definitions of the alternate-form helpers: a switch over the state id picks the state type"""
+    if n > 8:
+        body = """
+template <typename C> static bool altChangeTo(C&, unsigned) { return false; }
+template <typename C> static bool altChangeWith(C&, unsigned, unsigned) { return false; }
+template <typename C> static bool altImmChangeTo(C&, unsigned) { return false; }
+template <typename C> static bool altImmChangeWith(C&, unsigned, unsigned) { return false; }
+template <typename C> static bool altStatus(C&, bool, unsigned) { return false; }
+template <typename C> static int altIsActive(const C&, unsigned) { return -1; }
+template <typename C> static int altStateId(C&, unsigned) { return -1; }
+template <typename P> static bool altPlanChange(P&, unsigned, unsigned, bool, bool&) { return false; }
+template <typename P> static bool altPlanChangeWith(P&, unsigned, unsigned, unsigned, bool, bool&) { return false; }
+"""
+        return body
+    c1 = "\n".join("\t\tcase %d: Op::template run<S%d>(a...); return true;" % (k, k) for k in range(n))
+    c2b = "\n".join("\t\tcase %d: Op::template run<SO, S%d>(a...); return true;" % (k, k) for k in range(n))
+    c2 = "\n".join("\t\tcase %d: return forState2b<Op, S%d>(d, a...);" % (k, k) for k in range(n))
+    return """
+template <typename Op, typename... A> static bool forState(unsigned k, A&... a) {
+	switch (k) {
+%s
+		default: return false;
+	}
+}
+template <typename Op, typename SO, typename... A> static bool forState2b(unsigned k, A&... a) {
+	switch (k) {
+%s
+		default: return false;
+	}
+}
+template <typename Op, typename... A> static bool forState2(unsigned o, unsigned d, A&... a) {
+	switch (o) {
+%s
+		default: return false;
+	}
+}
+struct OpChangeTo { template <typename S, typename C> static void run(C& c) { c.template changeTo<S>(); } };
+struct OpImmChangeTo { template <typename S, typename C> static void run(C& c) { c.template immediateChangeTo<S>(); } };
+struct OpIsActive { template <typename S, typename C> static void run(const C& c, int& out) { out = c.template isActive<S>() ? 1 : 0; } };
+struct OpStateId { template <typename S, typename C> static void run(C&, int& out) { out = static_cast<int>(C::template stateId<S>()); } };
+template <typename C> static bool altChangeTo(C& c, unsigned d) { return forState<OpChangeTo>(d, c); }
+template <typename C> static bool altImmChangeTo(C& c, unsigned d) { return forState<OpImmChangeTo>(d, c); }
+template <typename C> static int altIsActive(const C& c, unsigned k) { int out = -1; forState<OpIsActive>(k, c, out); return out; }
+template <typename C> static int altStateId(C& c, unsigned k) { int out = -1; forState<OpStateId>(k, c, out); return out; }
+#if CFG_PAYLOAD
+struct OpChangeWith { template <typename S, typename C> static void run(C& c, unsigned& p) { c.template changeWith<S>(mkPayload(p)); } };
+struct OpImmChangeWith { template <typename S, typename C> static void run(C& c, unsigned& p) { c.template immediateChangeWith<S>(mkPayload(p)); } };
+template <typename C> static bool altChangeWith(C& c, unsigned d, unsigned p) { return forState<OpChangeWith>(d, c, p); }
+template <typename C> static bool altImmChangeWith(C& c, unsigned d, unsigned p) { return forState<OpImmChangeWith>(d, c, p); }
+#else
+template <typename C> static bool altChangeWith(C&, unsigned, unsigned) { return false; }
+template <typename C> static bool altImmChangeWith(C&, unsigned, unsigned) { return false; }
+#endif
+#if CFG_PLANS
+struct OpSucceed { template <typename S, typename C> static void run(C& c) { c.template succeed<S>(); } };
+struct OpFail { template <typename S, typename C> static void run(C& c) { c.template fail<S>(); } };
+template <typename C> static bool altStatus(C& c, bool ok, unsigned id) { return ok ? forState<OpSucceed>(id, c) : forState<OpFail>(id, c); }
+struct OpPlanChange1 { template <typename SO, typename P> static void run(P& p, unsigned& d, bool& r) { r = p.template change<SO>(static_cast<ffsm2::StateID>(d)); } };
+struct OpPlanChange2 { template <typename SO, typename SD, typename P> static void run(P& p, bool& r) { r = p.template change<SO, SD>(); } };
+template <typename P> static bool altPlanChange(P& p, unsigned o, unsigned d, bool form2, bool& r) {
+	return form2 ? forState2<OpPlanChange2>(o, d, p, r) : forState<OpPlanChange1>(o, p, d, r);
+}
+#if CFG_PAYLOAD
+struct OpPlanChangeWith1 { template <typename SO, typename P> static void run(P& p, unsigned& d, unsigned& pl, bool& r) { r = p.template changeWith<SO>(static_cast<ffsm2::StateID>(d), mkPayload(pl)); } };
+struct OpPlanChangeWith2 { template <typename SO, typename SD, typename P> static void run(P& p, unsigned& pl, bool& r) { r = p.template changeWith<SO, SD>(mkPayload(pl)); } };
+template <typename P> static bool altPlanChangeWith(P& p, unsigned o, unsigned d, unsigned pl, bool form2, bool& r) {
+	return form2 ? forState2<OpPlanChangeWith2>(o, d, p, pl, r) : forState<OpPlanChangeWith1>(o, p, d, pl, r);
+}
+#else
+template <typename P> static bool altPlanChangeWith(P&, unsigned, unsigned, unsigned, bool, bool&) { return false; }
+#endif
+#else
+template <typename C> static bool altStatus(C&, bool, unsigned) { return false; }
+template <typename P> static bool altPlanChange(P&, unsigned, unsigned, bool, bool&) { return false; }
+template <typename P> static bool altPlanChangeWith(P&, unsigned, unsigned, unsigned, bool, bool&) { return false; }
+#endif
+""" % (c1, c2b, c2)
+
+
 def source(cfg):
     n = cfg.n
     defs = []
@@ -102,7 +183,7 @@ def source(cfg):
         "history": int(cfg.history), "serial": int(cfg.serial), "haslog": int(haslog), "haspayload": int(bool(pay)),
         "payload_decl": "\n".join(pay) if pay else "", "ctx_kind": {"value": 0, "ref": 1, "ptr": 2}[cfg.ctx],
         "config": config, "fwd": fwd, "root": root, "classes": "\n".join(classes), "inj_body": inj_body,
-        "cfgline": cfg.cfg_line(),
+        "cfgline": cfg.cfg_line(), "alt_defs": alt_section(n).replace("%", "%%") if False else alt_section(n),
     }
 
 
@@ -159,6 +240,20 @@ static std::map<std::string, unsigned> g_occ;
 struct Act { std::string kind; std::vector<unsigned> a; std::string mask; };
 static std::map<std::string, std::vector<Act> > g_script;
 
+// alternate spellings of the same calls (template forms `x<TState>()`, own-state forms `succeed()` / `fail()`): the protocol
+// line does not say which spelling is used — odd (op index + occurrence) picks the alternate, so every run exercises both
+static bool g_alt = false;
+#define ALT_FORMS (N_STATES <= 8)
+template <typename C> static bool altChangeTo(C& c, unsigned d);
+template <typename C> static bool altChangeWith(C& c, unsigned d, unsigned p);
+template <typename C> static bool altImmChangeTo(C& c, unsigned d);
+template <typename C> static bool altImmChangeWith(C& c, unsigned d, unsigned p);
+template <typename C> static bool altStatus(C& c, bool ok, unsigned id);
+template <typename C> static int altIsActive(const C& c, unsigned k);      // -1: no alternate form compiled in
+template <typename C> static int altStateId(C& c, unsigned k);
+template <typename P> static bool altPlanChange(P& p, unsigned o, unsigned d, bool form2, bool& r);
+template <typename P> static bool altPlanChangeWith(P& p, unsigned o, unsigned d, unsigned pl, bool form2, bool& r);
+
 static void checkEvent(const Event* e) { if (e != g_event) std::printf("FAIL: callback received an event object that is not the caller's\n"); }
 
 //------------------------------------------------------------------------------ printing
@@ -175,20 +270,47 @@ static void printTr(const Transition& t) {
 }
 #if CFG_PLANS
 template <typename TTask>
-static void printTask(const TTask& t) {
-	std::printf("%%u>%%u:", static_cast<unsigned>(t.origin), static_cast<unsigned>(t.destination));
+static std::string taskStr(const TTask& t) {
+	char b[64];
+	std::snprintf(b, sizeof b, "%%u>%%u:", static_cast<unsigned>(t.origin), static_cast<unsigned>(t.destination));
+	std::string s = b;
 #if CFG_PAYLOAD
-	if (t.payload()) { int p = rdPayload(*t.payload()); if (p < 0) std::printf("CORRUPT"); else std::printf("%%d", p); } else std::printf("-");
+	if (t.payload()) { int p = rdPayload(*t.payload()); if (p < 0) s += "CORRUPT"; else { std::snprintf(b, sizeof b, "%%d", p); s += b; } } else s += "-";
 #else
-	std::printf("-");
+	s += "-";
 #endif
+	return s;
+}
+// the plan as its iteration yields it; first() / last() / operator bool must agree with that sequence (C10)
+template <typename TPlan>
+static std::string planStr(TPlan p) {
+	std::string s = "[", firstS, lastS; bool first = true; unsigned guard = 0;
+	for (auto it = p.begin(); it && guard < 1000; ++it, ++guard) { std::string t = taskStr(*it); if (first) firstS = t; lastS = t; if (!first) s += " "; first = false; s += t; }
+	if (guard >= 1000) s += " FAIL:plan-iteration-does-not-terminate";
+	const TPlan& cp = p;
+	if (static_cast<bool>(cp) != (guard > 0)) s += " FAIL:plan-bool-disagrees-with-iteration";
+	if (guard > 0 && guard < 1000 && static_cast<bool>(cp)) {
+		if (taskStr(cp.first()) != firstS || taskStr(p.first()) != firstS) s += " FAIL:plan-first-is-not-the-first-task-iterated";
+		if (taskStr(cp.last()) != lastS || taskStr(p.last()) != lastS) s += " FAIL:plan-last-is-not-the-last-task-iterated";
+	}
+	return s + "]";
+}
+// iteration through the const overloads (PlanT::CIterator)
+template <typename TPlan>
+static std::string planStrConst(const TPlan& p) {
+	std::string s = "["; bool first = true; unsigned guard = 0;
+	for (auto it = p.begin(); it && guard < 1000; ++it, ++guard) { if (!first) s += " "; first = false; s += taskStr(*it); }
+	return s + "]";
 }
 template <typename TPlan>
-static void printPlan(TPlan p) {
-	std::printf("["); bool first = true; unsigned guard = 0;
-	for (auto it = p.begin(); it && guard < 1000; ++it, ++guard) { if (!first) std::printf(" "); first = false; printTask(*it); }
-	if (guard >= 1000) std::printf(" FAIL:plan-iteration-does-not-terminate");
-	std::printf("]");
+static void printPlan(TPlan p) { std::printf("%%s", planStr(p).c_str()); }
+// a mutable plan view: additionally iterate it through the const overloads
+template <typename TPlan>
+static void printPlanBoth(TPlan p) {
+	std::string a = planStr(p);
+	if (planStrConst(p) != a.substr(0, a.find(" FAIL:") == std::string::npos ? a.size() : a.find(" FAIL:")) + (a.find(" FAIL:") == std::string::npos ? "" : "]"))
+		a.insert(a.size() - 1, " FAIL:plan-const-iteration-differs");
+	std::printf("%%s", a.c_str());
 }
 #endif
 
@@ -205,9 +327,10 @@ static bool doChange(ConstControlX&, const Act&) { return false; }
 static bool doChange(PlanControlX&, const Act&) { return false; }
 static bool permittedChange(const Act& a) { return idOk(a.a[0]) && (a.kind == "changeTo" || CFG_PAYLOAD); }
 static bool doChange(FullControlX& c, const Act& a) {
-	if (a.kind == "changeTo") { c.changeTo(static_cast<ffsm2::StateID>(a.a[0])); return true; }
+	if (a.kind == "changeTo") { if (!(g_alt && altChangeTo(c, a.a[0]))) c.changeTo(static_cast<ffsm2::StateID>(a.a[0])); return true; }
 #if CFG_PAYLOAD
-	c.changeWith(static_cast<ffsm2::StateID>(a.a[0]), mkPayload(a.a[1])); return true;
+	if (!(g_alt && altChangeWith(c, a.a[0], a.a[1]))) c.changeWith(static_cast<ffsm2::StateID>(a.a[0]), mkPayload(a.a[1]));
+	return true;
 #else
 	return false;
 #endif
@@ -224,17 +347,25 @@ static bool isFull(FullControlX&) { return true; }
 static bool isConst(ConstControlX&) { return true; }
 static bool isConst(PlanControlX&) { return false; }
 #if CFG_PLANS
-static void doStatus(ConstControlX&, bool, unsigned) {}
-static void doStatus(PlanControlX&, bool, unsigned) {}
-static void doStatus(FullControlX& c, bool ok, unsigned id) { if (ok) c.succeed(static_cast<ffsm2::StateID>(id)); else c.fail(static_cast<ffsm2::StateID>(id)); }
+static void doStatus(ConstControlX&, bool, unsigned, bool) {}
+static void doStatus(PlanControlX&, bool, unsigned, bool) {}
+static void doStatus(FullControlX& c, bool ok, unsigned id, bool own) {
+	if (g_alt) {
+		if (own) { if (ok) c.succeed(); else c.fail(); return; }     // the calling state's own status
+		if (altStatus(c, ok, id)) return;
+	}
+	if (ok) c.succeed(static_cast<ffsm2::StateID>(id)); else c.fail(static_cast<ffsm2::StateID>(id));
+}
 static void doPlan(ConstControlX&, const Act&) {}
 static void doPlan(PlanControlX& c, const Act& a) {
 	auto p = c.plan();
 	if (a.kind == "planAppend") {
-		if (a.a.size() == 2) p.change(static_cast<ffsm2::StateID>(a.a[0]), static_cast<ffsm2::StateID>(a.a[1]));
+		bool r = false; const bool f2 = ((a.a[0] + a.a[1]) & 1) != 0;
+		if (a.a.size() == 2) { if (!(g_alt && altPlanChange(p, a.a[0], a.a[1], f2, r))) p.change(static_cast<ffsm2::StateID>(a.a[0]), static_cast<ffsm2::StateID>(a.a[1])); }
 #if CFG_PAYLOAD
-		else p.changeWith(static_cast<ffsm2::StateID>(a.a[0]), static_cast<ffsm2::StateID>(a.a[1]), mkPayload(a.a[2]));
+		else { if (!(g_alt && altPlanChangeWith(p, a.a[0], a.a[1], a.a[2], f2, r))) p.changeWith(static_cast<ffsm2::StateID>(a.a[0]), static_cast<ffsm2::StateID>(a.a[1]), mkPayload(a.a[2])); }
 #endif
+		(void) r;
 	} else if (a.kind == "planClear") p.clear();
 	else if (a.kind == "planRemove") {
 		size_t k = 0; unsigned guard = 0;
@@ -260,7 +391,7 @@ static void printPending(GuardControlX& c) { printTr(c.pendingTransition()); }
 static void printCPlan(ConstControlX&) { std::printf("~"); }
 static void printCPlan(PlanControlX& c) {
 #if CFG_PLANS
-	printPlan(c.plan());
+	printPlanBoth(c.plan());
 #else
 	(void) c; std::printf("~");
 #endif
@@ -276,9 +407,16 @@ static void deliver(MethodId m, unsigned sid, int layer, TControl& c) {
 	unsigned occ = g_occ[base]++;
 	std::snprintf(key, sizeof key, "i%%u op%%u occ%%u %%s", g_inst, g_op, occ, base);
 	const Flavour fl = flavourOf(c);
+	g_alt = ((g_op + occ) & 1u) != 0;
 	// observation
 	std::printf("cb %%s | id=%%u act=", key, static_cast<unsigned>(c.stateId()));
-	for (unsigned j = 0; j < N_STATES; ++j) std::printf("%%d", c.isActive(static_cast<ffsm2::StateID>(j)) ? 1 : 0);
+	bool altBad = false;
+	for (unsigned j = 0; j < N_STATES; ++j) {
+		const bool act = c.isActive(static_cast<ffsm2::StateID>(j));
+		std::printf("%%d", act ? 1 : 0);
+		const int t = altIsActive(c, j), u = altStateId(c, j);
+		if ((t >= 0 && (t != 0) != act) || (u >= 0 && static_cast<unsigned>(u) != j)) altBad = true;
+	}
 	std::printf(" mact=%%u req=", machActive());
 	printTr(c.request());
 	std::printf(" cur="); printCurrent(c);
@@ -286,6 +424,8 @@ static void deliver(MethodId m, unsigned sid, int layer, TControl& c) {
 	std::printf(" plan="); printCPlan(c);
 	std::printf("\n");
 	if (!contextIsOwn(c.context())) std::printf("FAIL: control.context() is not the machine's own context object (%%s)\n", key);
+	if (!contextIsOwn(c._())) std::printf("FAIL: control._() is not the machine's own context object (%%s)\n", key);
+	if (altBad) std::printf("FAIL: control.isActive<TState>() / stateId<TState>() disagree with the id-based forms (%%s)\n", key);
 	// scripted actions
 	auto it = g_script.find(key);
 	if (it == g_script.end()) return;
@@ -301,7 +441,7 @@ static void deliver(MethodId m, unsigned sid, int layer, TControl& c) {
 		if (a.kind == "changeTo" || a.kind == "changeWith") doChange(c, a);
 		else if (a.kind == "cancel") doCancel(c);
 #if CFG_PLANS
-		else if (a.kind == "succeed" || a.kind == "fail") doStatus(c, a.kind == "succeed", a.a.empty() ? sid : a.a[0]);
+		else if (a.kind == "succeed" || a.kind == "fail") doStatus(c, a.kind == "succeed", a.a.empty() ? sid : a.a[0], a.a.empty());
 		else doPlan(c, a);
 #endif
 	}
@@ -314,6 +454,8 @@ struct Inj : FSM::State {
 
 %(classes)s
 
+//------------------------------------------------------------------------------ alternate spellings (template forms)
+%(alt_defs)s
 //------------------------------------------------------------------------------ machine-side helpers
 typedef FSM::Instance Instance;
 static Instance* g_cur = nullptr;
@@ -386,11 +528,21 @@ static void apiLine(const char* name, Instance* m, int ret, const char* bytesHex
 	std::printf(" prev=~");
 #endif
 #if CFG_PLANS
-	std::printf(" plan="); printPlan(m->plan());
+	std::printf(" plan="); printPlanBoth(m->plan());
+	{ const Instance& cm = *m; if (planStr(cm.plan()) != planStr(m->plan())) std::printf(" FAIL:plan-const-view-differs"); }
 #else
 	std::printf(" plan=~");
 #endif
 	std::printf(" ret=%%s bytes=%%s\n", ret < 0 ? "~" : (ret ? "1" : "0"), bytesHex);
+	{
+		const Instance& cm = *m; bool bad = false;
+		for (unsigned j = 0; j < N_STATES; ++j) {
+			const int t = altIsActive(cm, j), u = altStateId(*m, j);
+			if ((t >= 0 && (t != 0) != cm.isActive(static_cast<ffsm2::StateID>(j))) || (u >= 0 && static_cast<unsigned>(u) != j)) bad = true;
+		}
+		if (bad) std::printf("FAIL: isActive<TState>() / stateId<TState>() disagree with the id-based forms (%%s)\n", name);
+		if (&cm.context() != &m->context()) std::printf("FAIL: context() const is not context() (%%s)\n", name);
+	}
 }
 static void deadLine(const char* name) {   // observation of a destroyed (automatic) instance: the canonical inactive view
 	std::printf("api i%%u op%%u %%s | act=255 isA=", g_inst, g_op, name);
@@ -464,6 +616,7 @@ int main() {
 		const std::string& name = w[1];
 		const unsigned i = num(w[2]);
 		g_inst = i; g_op = opIndex++; g_occ.clear();
+		const bool altOp = (g_op & 1u) != 0;
 		if (i >= SLOTS) { rejected(name.c_str()); continue; }
 		Instance* m = g_m[i];
 		g_cur = m;
@@ -505,12 +658,20 @@ int main() {
 		} else if (name == "query") { if (active) { Event e{9}; g_event = &e; m->query(e); g_event = nullptr; apiLine("query", m, -1, "~"); } else rejected("query");
 		} else if (name == "changeTo" || name == "immediateChangeTo") {
 			unsigned d = w.size() > 3 ? num(w[3]) : 999;
-			if (active && idOk(d)) { if (name == "changeTo") m->changeTo(static_cast<ffsm2::StateID>(d)); else m->immediateChangeTo(static_cast<ffsm2::StateID>(d)); apiLine(name.c_str(), m, -1, "~"); }
+			if (active && idOk(d)) {
+				if (name == "changeTo") { if (!(altOp && altChangeTo(*m, d))) m->changeTo(static_cast<ffsm2::StateID>(d)); }
+				else { if (!(altOp && altImmChangeTo(*m, d))) m->immediateChangeTo(static_cast<ffsm2::StateID>(d)); }
+				apiLine(name.c_str(), m, -1, "~");
+			}
 			else rejected(name.c_str());
 		} else if (name == "changeWith" || name == "immediateChangeWith") {
 #if CFG_PAYLOAD
 			unsigned d = w.size() > 3 ? num(w[3]) : 999, p = w.size() > 4 ? num(w[4]) : 0;
-			if (active && idOk(d)) { if (name == "changeWith") m->changeWith(static_cast<ffsm2::StateID>(d), mkPayload(p)); else m->immediateChangeWith(static_cast<ffsm2::StateID>(d), mkPayload(p)); apiLine(name.c_str(), m, -1, "~"); }
+			if (active && idOk(d)) {
+				if (name == "changeWith") { if (!(altOp && altChangeWith(*m, d, p))) m->changeWith(static_cast<ffsm2::StateID>(d), mkPayload(p)); }
+				else { if (!(altOp && altImmChangeWith(*m, d, p))) m->immediateChangeWith(static_cast<ffsm2::StateID>(d), mkPayload(p)); }
+				apiLine(name.c_str(), m, -1, "~");
+			}
 			else rejected(name.c_str());
 #else
 			rejected(name.c_str());
@@ -518,7 +679,10 @@ int main() {
 		} else if (name == "succeed" || name == "fail") {
 #if CFG_PLANS
 			unsigned k = w.size() > 3 ? num(w[3]) : 999;
-			if (idOk(k)) { if (name == "succeed") m->succeed(static_cast<ffsm2::StateID>(k)); else m->fail(static_cast<ffsm2::StateID>(k)); apiLine(name.c_str(), m, -1, "~"); }
+			if (idOk(k)) {
+				if (!(altOp && altStatus(*m, name == "succeed", k))) { if (name == "succeed") m->succeed(static_cast<ffsm2::StateID>(k)); else m->fail(static_cast<ffsm2::StateID>(k)); }
+				apiLine(name.c_str(), m, -1, "~");
+			}
 			else rejected(name.c_str());
 #else
 			rejected(name.c_str());
@@ -528,11 +692,11 @@ int main() {
 			unsigned o = w.size() > 3 ? num(w[3]) : 999, d = w.size() > 4 ? num(w[4]) : 999;
 			bool hasP = w.size() > 5;
 			if (idOk(o) && idOk(d) && (!hasP || CFG_PAYLOAD)) {
-				bool r;
+				bool r = false; auto pl = m->plan(); const bool f2 = ((o + d) & 1u) != 0;
 #if CFG_PAYLOAD
-				if (hasP) r = m->plan().changeWith(static_cast<ffsm2::StateID>(o), static_cast<ffsm2::StateID>(d), mkPayload(num(w[5]))); else
+				if (hasP) { if (!(altOp && altPlanChangeWith(pl, o, d, num(w[5]), f2, r))) r = pl.changeWith(static_cast<ffsm2::StateID>(o), static_cast<ffsm2::StateID>(d), mkPayload(num(w[5]))); } else
 #endif
-				r = m->plan().change(static_cast<ffsm2::StateID>(o), static_cast<ffsm2::StateID>(d));
+				{ if (!(altOp && altPlanChange(pl, o, d, f2, r))) r = pl.change(static_cast<ffsm2::StateID>(o), static_cast<ffsm2::StateID>(d)); }
 				apiLine("planAppend", m, r ? 1 : 0, "~");
 			} else rejected("planAppend");
 #else
